@@ -599,9 +599,12 @@ def run(chk, replay=None):
     # ONE key changed more often than the history bound (100), compacted while its history is AT the bound, then restarted:
     # the history served after the restart must be the one served before the stop
     hot = []
-    for j in range(150):
+    for j in range(170):
         hid += 1
-        hot.append({"ConfigSet": {"key": c07.K("hot", "g1", ""), "value": "h%d" % j, "config_type": None, "desc": None,
+        # 110 changes of the hot key, then 60 changes of other keys: the later compactions snapshot the hot key with its
+        # history at the bound and no later change of it is replayed over the loaded value
+        key = c07.K("hot", "g1", "") if j < 110 else c07.K("cold%d" % (j % 9), "g1", "")
+        hot.append({"ConfigSet": {"key": key, "value": "h%d" % j, "config_type": None, "desc": None,
                                   "history_id": hid, "history_table_id": None, "op_time": 1700000000000 + hid, "op_user": None}})
     rcases.append({"threshold": 40, "phases": [{"reqs": hot}, {"reqs": hot[:1]}], "plants": [], "pace": True})
     r_out = lib.harness_run_parallel("restart", rcases, shards=8, env=env, timeout=2400)
